@@ -618,14 +618,20 @@ class WOFFFlavorData:
             if reader.metaLength:
                 reader.file.seek(reader.metaOffset)
                 rawData = reader.file.read(reader.metaLength)
-                assert len(rawData) == reader.metaLength
-                data = self._decompress(rawData)
-                assert len(data) == reader.metaOrigLength
+                if len(rawData) != reader.metaLength:
+                    raise TTLibError("unexpected end of metadata block")
+                try:
+                    data = self._decompress(rawData)
+                except Exception as e:
+                    raise TTLibError("cannot decompress metadata block: %s" % e) from e
+                if len(data) != reader.metaOrigLength:
+                    raise TTLibError("unexpected size for decompressed metadata block")
                 self.metaData = data
             if reader.privLength:
                 reader.file.seek(reader.privOffset)
                 data = reader.file.read(reader.privLength)
-                assert len(data) == reader.privLength
+                if len(data) != reader.privLength:
+                    raise TTLibError("unexpected end of private data block")
                 self.privData = data
 
     def _decompress(self, rawData):
